@@ -126,8 +126,9 @@ def wildcard_case(draw):
         seen = set()
         tl = []
         for i, (e, a) in enumerate(inner['targets']):
-            name = a if a is not None else (e[1] if e[0] == 'col' else None)
-            if name is None or name in seen:
+            # an un-aliased expression is named by its source text, and keeps that name through the sub-select
+            name = a if a is not None else (e[1] if e[0] == 'col' else bql.expr(e))
+            if name in seen or (a is None and e[0] != 'col' and draw(st.booleans())):
                 a = f'u{i}'
                 name = a
             seen.add(name)
@@ -171,6 +172,8 @@ def prop_wildcard(sh, case):
         if kind == 'subq2':
             q = f'SELECT * FROM ({q})'
     if kind in ('table', 'default'):
+        # aliases of an earlier statement over the table are not columns of it
+        harness.engine(conn, bql.to_ast(bql.select([(['col', table['cols'][0][0]], 'zq_alias')], ('table', table['name']))))
         # one parsed statement serves every table of that name: it is first executed over a table with other
         # columns on another connection (and, the parse being memoised per process, over the tables of earlier cases)
         stmt = harness.parsed(q if case.get('nest', 0) % 2 == 0 else f'SELECT * FROM ({q})')
@@ -203,12 +206,15 @@ def prop_ledger_star(sh, case):
         if not name:
             continue
         q = f'SELECT * FROM #{name}'
+        want = list(table.wildcard_columns)
+        declared = list(table.columns)
+        # aliases given by an earlier statement over the same table (here and on another connection) are not columns
+        for c in (conn, ledgers.connect(ledgers.SAMPLE)):
+            harness.engine(c, f'SELECT {declared[0]} AS zz_alias, {declared[-1]} AS yy_alias FROM #{name} ORDER BY zz_alias')
         r = harness.engine(conn, q)
         if r[0] != 'ok':
             fails.append((exc_sig(r[1], 'ledgerstar:raises'), f'{q!r}: {r[1]!r}'))
             continue
-        want = list(table.wildcard_columns)
-        declared = list(table.columns)
         names = [d.name for d in r[1]]
         if names != want:
             fails.append(('ledgerstar:names', f'{q!r}: {names} want {want}'))
